@@ -33,8 +33,9 @@ META = {
 }
 
 UNIVERSE = [["x"], ["a"], ["a", "x"], ["a", "z"], ["b", "c", "y"]]      # x.md and a/x.md share a name; a.md sits next to a/
-HEADINGS = {"x": [], "a": ["One"], "a/x": ["Sec", "Sec"], "a/z": ["Sec"], "b/c/y": ["Other"]}
-SLUGS = {"x": [], "a": ["one"], "a/x": ["sec", "sec-1"], "a/z": ["sec"], "b/c/y": ["other"]}
+HEADINGS = {"x": [], "a": ["One"], "a/x": ["Sec", "Sec"], "a/z": ["Sec"], "b/c/y": ["Größe É"]}
+SLUGS = {"x": [], "a": ["one"], "a/x": ["sec", "sec-1"], "a/z": ["sec"], "b/c/y": ["größe-é"]}
+SLUG_OF = {"Sec": "sec", "One": "one", "Other": "other", "Größe É": "größe-é"}
 LABELDOC = ["a", "x"]
 FILEDIR = ["a"]
 
@@ -86,6 +87,9 @@ def doc_text(p, headings, links_lines, labeldoc=LABELDOC):
         if p == labeldoc and k == len(hs):
             out += ["(lab)="]
         out += [f"## {h}", "", f"body {k}", ""]
+        if h == "Sec":
+            # a heading of the same title below the anchor depth: it has no slug and takes no part in the numbering
+            out += [f"### {h}", "", f"deep {k}", ""]
     for ln in links_lines:
         out += [ln, ""]
     return "\n".join(out) + "\n"
@@ -125,7 +129,7 @@ def build_project(job):
         t = r["doctrees"].get(pkey(p))
         if t is None:
             continue
-        secs = [s for s in t.findall(nodes.section) if isinstance(s.parent, nodes.section)]
+        secs = [s for s in t.findall(nodes.section) if isinstance(s.parent, nodes.section) and isinstance(s.parent.parent, nodes.document)]
         secids[pkey(p)] = [list(s["ids"]) for s in secs]
         top = [s for s in t.findall(nodes.section) if isinstance(s.parent, nodes.document)]
         titles[pkey(p)] = top[0][0].astext() if top else ""
@@ -251,11 +255,11 @@ def v_leg(ctx, rnd, quick):
                 universe.append(p)
         headings, slugs = {}, {}
         for p in universe:
-            hs = [rnd.choice(["Sec", "Other", "Sec"]) for _ in range(rnd.randint(0, 2))]
+            hs = [rnd.choice(["Sec", "Other", "Sec", "Größe É"]) for _ in range(rnd.randint(0, 2))]
             headings[pkey(p)] = hs
             sl = []
             for h in hs:
-                b = h.lower()
+                b = SLUG_OF[h]
                 sl.append(b if b not in sl else b + "-1")
             slugs[pkey(p)] = sl
         withh = [p for p in universe if headings[pkey(p)]]
